@@ -684,6 +684,104 @@ theorem constant_channel_singular (rows : List (Row K)) (dof : K) (p j : Nat) (h
 def prec_complete_full : Prop :=
   ∀ (cov : Mat K) (p : Nat), (Matrix.of fun (j k : Fin p) => cov j k).det ≠ 0 → (precOf cov p).isSome
 
+/-! ### Sessions on one dataset object: estimate → in-place change → estimate again
+
+  `runSession` threads the content of the object through `sort_by`, descriptor and measurement
+  stores; the theorems say that this content is the *only* thing an estimate depends on (no
+  memory of earlier calls or of an earlier row layout), so every theorem above applies to every
+  call of a session with the content of that moment. -/
+
+theorem applySteps_cons (st : Step K) (steps : List (Step K)) (s : List (SObs K)) :
+    applySteps (st :: steps) s = applySteps steps (st.apply s) := rfl
+
+/-- every estimate of a session — whatever was estimated, sorted or stored before, whatever
+    comes after — is the estimator applied to the content the object has at that moment -/
+theorem session_estimate_of_current_content (p : Nat) (pre post : List (Step K)) (e : Est)
+    (m : Method) (d : Nat) (dof : Option K) (s : List (SObs K)) :
+    runSession p (pre ++ Step.est e m d dof :: post) s
+      = runSession p pre s ++ estimateOn e m d dof p (applySteps pre s)
+          :: runSession p post (applySteps pre s) := by
+  induction pre generalizing s with
+  | nil => rfl
+  | cons st pre ih =>
+    cases st <;> simp only [List.cons_append, runSession, applySteps_cons, Step.apply, ih]
+
+/-- estimator calls, however many, with whatever arguments and in whatever order, leave the
+    content of the object as it is: the content after a session is that after its stores alone -/
+theorem session_estimates_leave_content (steps : List (Step K)) (s : List (SObs K)) :
+    applySteps steps s = applySteps (steps.filter Step.mutates) s := by
+  induction steps generalizing s with
+  | nil => rfl
+  | cons st steps ih =>
+    cases st <;> simp only [List.filter_cons, Step.mutates, applySteps_cons, Step.apply, ih,
+      if_true, Bool.false_eq_true, if_false]
+
+/-- estimating twice without a change in between gives the identical matrix, and the order of
+    two estimator calls is irrelevant for what each returns -/
+theorem session_repeat_identical (p : Nat) (e1 e2 : Est) (m1 m2 : Method) (d1 d2 : Nat)
+    (dof1 dof2 : Option K) (s : List (SObs K)) :
+    runSession p [.est e1 m1 d1 dof1, .est e2 m2 d2 dof2, .est e1 m1 d1 dof1] s
+      = [estimateOn e1 m1 d1 dof1 p s, estimateOn e2 m2 d2 dof2 p s, estimateOn e1 m1 d1 dof1 p s] ∧
+    runSession p [.est e2 m2 d2 dof2, .est e1 m1 d1 dof1] s
+      = [estimateOn e2 m2 d2 dof2 p s, estimateOn e1 m1 d1 dof1 p s] := ⟨rfl, rfl⟩
+
+/-- `sort_by` re-orders the observations (measurements and all descriptors together) -/
+theorem view_sortBy_perm (d d' : Nat) (s : List (SObs K)) : (view d (sortBy d' s)).Perm (view d s) :=
+  (List.mergeSort_perm s _).map _
+
+/-- the model's `sort_by` is a sort: afterwards the chosen descriptor is non-decreasing (and, by
+    `view_sortBy_perm`, the observations are the same ones) -/
+theorem sortBy_sorted (d : Nat) (s : List (SObs K)) :
+    (labels (view d (sortBy d s))).Pairwise (· ≤ ·) := by
+  have hs : (sortBy d s).Pairwise (fun a b => decide (descOf d a ≤ descOf d b) = true) :=
+    List.pairwise_mergeSort (by intro a b c; simp only [decide_eq_true_eq]; omega)
+      (by intro a b; simp only [Bool.or_eq_true, decide_eq_true_eq]; omega) s
+  simp only [labels, view, List.map_map, List.pairwise_map]
+  exact hs.imp (by intro a b hab; simpa using hab)
+
+/-- `Dataset.sort_by` on any descriptor changes no estimate: both estimators, every method,
+    every descriptor used for grouping, dof None or passed; the measurement-based one accepts
+    the sorted object exactly when it accepted the unsorted one -/
+theorem session_sort_keeps_estimates (e : Est) (m : Method) (d d' : Nat) (dof : Option K) (p : Nat)
+    (s : List (SObs K)) :
+    estimateOn e m d dof p (sortBy d' s) = estimateOn e m d dof p s := by
+  have hp := view_sortBy_perm d d' s
+  cases e with
+  | unbalanced => simp only [estimateOn, unbalanced_perm m _ _ hp]
+  | measurements =>
+    simp only [estimateOn]
+    cases hb : balancedR (groups (view d s)) with
+    | some R =>
+      exact measurements_perm m _ _ hp R R (balancedR_perm _ _ hp.symm R hb) hb dof p
+    | none =>
+      cases hb' : balancedR (groups (view d (sortBy d' s))) with
+      | some R => rw [balancedR_perm _ _ hp R hb'] at hb; exact absurd hb (by simp)
+      | none => simp only [covFromMeasurements, hb, hb']
+
+/-- … hence a whole session of estimates interleaved with sorts returns, at every call, what
+    the same call returns on the object as first built -/
+theorem session_sorts_only (p : Nat) (steps : List (Step K))
+    (hs : ∀ st ∈ steps, (∃ d, st = .sort d) ∨ ∃ e m d dof, st = .est e m d dof)
+    (e : Est) (m : Method) (d : Nat) (dof : Option K) (s : List (SObs K)) :
+    estimateOn e m d dof p (applySteps steps s) = estimateOn e m d dof p s := by
+  induction steps generalizing s with
+  | nil => rfl
+  | cons st steps ih =>
+    have ih' := fun s => ih (fun st' h' => hs st' (List.mem_cons_of_mem _ h')) s
+    rcases hs st List.mem_cons_self with ⟨d', rfl⟩ | ⟨e', m', d', dof', rfl⟩
+    · rw [applySteps_cons, ih']; exact session_sort_keeps_estimates e m d d' dof p s
+    · rw [applySteps_cons, ih']; rfl
+
+/-- after any session the 'full' estimate with the natural dof is the pooled within-condition
+    covariance of the object's *current* rows grouped by its *current* descriptor values -/
+theorem session_full_is_pooled_cov_of_current (steps : List (Step K)) (d : Nat) (s : List (SObs K))
+    (p j k : Nat) :
+    (estimateOn .unbalanced .full d none p (applySteps steps s)).map (fun c => c j k)
+      = some ((let obs := view d (applySteps steps s)
+          (obs.map (fun o => (o.2 j - condMean obs o.1 j) * (o.2 k - condMean obs o.1 k))).sum
+            / ((obs.length - (uniq (labels obs)).length : Nat) : K))) := by
+  simp only [estimateOn, Option.map_some, unbalanced_full_is_pooled_cov]
+
 /-! ### Non-vacuity: concrete objects meeting the hypotheses used above -/
 
 section examples
@@ -727,6 +825,30 @@ example : exRows ≠ [] ∧ ¬ 0 < eyeD2 exRows 1 := by decide +kernel
 -- `singular_has_no_precision`: a singular 2 × 2 matrix
 example : (Matrix.of fun (j k : Fin 2) => (fun (_ _ : Nat) => (1 : ℚ)) j k).det = 0 := by
   simp [Matrix.det_fin_two]
+
+/-- a run-wise interleaved object: descriptor 0 = condition, descriptor 1 = run; one channel -/
+def exS : List (SObs ℚ) := [([1, 0], fun _ => 3), ([0, 0], fun _ => 1), ([1, 1], fun _ => 5),
+  ([0, 1], fun _ => 2)]
+
+-- `sort_by` really changes the row layout (so a row grouping remembered from before is wrong) …
+example : labels (view 0 exS) = [1, 0, 1, 0] ∧ labels (view 0 (sortBy 0 exS)) ≠ labels (view 0 exS) := by
+  refine ⟨by decide +kernel, fun h => ?_⟩
+  have hl := sortBy_sorted 0 exS
+  rw [h] at hl
+  revert hl; decide +kernel
+-- … a session of sorts and estimates meets the hypothesis of `session_sorts_only` …
+example : ∀ st ∈ ([.sort 0, .est .measurements .full 0 none, .sort 1] : List (Step ℚ)),
+    (∃ d, st = .sort d) ∨ ∃ e m d dof, st = .est e m d dof := by
+  intro st h
+  simp only [List.mem_cons, List.not_mem_nil, or_false] at h
+  rcases h with rfl | rfl | rfl
+  · exact Or.inl ⟨0, rfl⟩
+  · exact Or.inr ⟨_, _, _, _, rfl⟩
+  · exact Or.inl ⟨1, rfl⟩
+-- … and stores into a descriptor / the measurements do change the estimate
+example : (runSession 1 [.est .unbalanced .full 0 none, .setDesc 0 0 0, .est .unbalanced .full 0 none,
+      .setVal 3 0 8, .est .measurements .full 1 none] exS).map (fun r => r.map (fun c => c 0 0))
+    = [some (5 / 4), some 1, some (13 / 4)] := by decide +kernel
 
 end examples
 
